@@ -432,6 +432,7 @@ def validate_all(ctx, module, cfg, trace_path, describe=None, max_rejections=8, 
     traces = split_traces(lines)
     total = len(traces)
     rejected = 0
+    accepted = 0
     rounds = 0
     while True:
         rounds += 1
@@ -459,7 +460,11 @@ def validate_all(ctx, module, cfg, trace_path, describe=None, max_rejections=8, 
             # the rejected line is one past the end: the last trace could not be completed
             idx = len(traces) - 1
             n = sum(len(t) for t in traces[:-1])
-        bad = traces.pop(idx)
+        # sub-traces are independent (every one starts with a Reset): the ones before the rejected
+        # sub-trace are accepted, only the ones after it are validated again
+        accepted += idx
+        bad = traces[idx]
+        traces = traces[idx + 1:]
         rel = line - n  # 1-based line inside the sub-trace
         try:
             evline = json.loads(bad[min(rel, len(bad)) - 1])
@@ -479,7 +484,7 @@ def validate_all(ctx, module, cfg, trace_path, describe=None, max_rejections=8, 
         if rejected >= max_rejections:
             ctx.log("too many rejected traces; stopping validation")
             break
-    ctx.traces += len(traces) if rejected < max_rejections else 0
+    ctx.traces += (accepted + len(traces)) if rejected < max_rejections else accepted
     return total - rejected
 
 
